@@ -359,7 +359,8 @@ def resolve_name(obj, func, args, unknown=False):
             attr_owner = resolve_name(obj.value, func, args)
             try:
                 return getattr(attr_owner, obj.attr)
-            except AttributeError:
+            except Exception:
+                # AttributeError, or whatever else a getter may raise
                 raise UnresolvableName(obj)
         else:
             raise UnresolvableName(obj)
